@@ -149,6 +149,23 @@ where
         }
         Err(m) => rep.violation(case, format!("C04:panic:substitute_raw_pkh:{}", norm_loc(&last_panic_loc())), format!("{} on {}", m, s)),
     }
+    // ... and the round trip keeps the spending condition: same lifted policy (keys back in place)
+    {
+        use miniscript::policy::Liftable;
+        let la = guarded(std::panic::AssertUnwindSafe(|| ms.lift().map(|p| p.normalized().sorted().to_string()).map_err(|e| e.to_string())));
+        let lb = guarded(std::panic::AssertUnwindSafe(|| subst.lift().map(|p| p.normalized().sorted().to_string()).map_err(|e| e.to_string())));
+        match (la, lb) {
+            (Ok(Ok(a)), Ok(Ok(b))) => {
+                if a != b {
+                    rep.violation(case, format!("C04:roundtrip-changes-semantics:{}", cx.name()), format!("x = {} [{}] lifts to {}, decode(encode(x)) with the keys put back lifts to {}", s, cx.name(), a, b));
+                } else {
+                    rep.count("roundtrip-preserves-lifted-policy");
+                }
+            }
+            (Ok(Ok(a)), Ok(Err(e))) => rep.violation(case, format!("C04:roundtrip-changes-semantics:{}", cx.name()), format!("x = {} [{}] lifts to {}, decode(encode(x)) with the keys put back cannot be lifted: {}", s, cx.name(), a, e)),
+            _ => rep.count("roundtrip-lift-not-comparable(original not liftable)"),
+        }
+    }
     // ... also with an empty key map (nothing to substitute)
     if let Ok(b3) = guarded(std::panic::AssertUnwindSafe(|| ms2.substitute_raw_pkh(&BTreeMap::new()).encode().to_bytes())) {
         if b3 != bytes {
